@@ -66,6 +66,23 @@ CLAIMS = {
             "derived entries are encoded/decoded by the real code; TLC compares the bytes with Layout(m) and the result "
             "with Reading(b), and demands refusal of over-length values.",
             TB + "Python codec tables.", "3 C02"),
+    'C07': ("TLA+ decoder spec model-checked for totality/termination (MC_Framing); structure-aware mutants and random "
+            "bytes decoded by the real code under a watchdog, each recorded call judged by TLC (Trace_Iso / Trace_Vbs "
+            "outcome sets)",
+            "Every structural byte (length prefixes, PDS sub-lengths, bitmap bytes, TLV lengths, MTI) of ~100 base "
+            "messages x substituted values (thorough: all 256), prefix rewrites, truncation/extension, multi-point "
+            "mutations and random bytes, under ASCII/EBCDIC and binary/hex bitmaps, packaged and generated configurations; "
+            "mutated VBS/1014 files through VbsReader, IpmReader and the two CSV tools. TLC decides admissibility of "
+            "each outcome class (dict / library error / records+stop); hang and foreign exceptions are in no outcome set.",
+            TB + "'Promptly' = 2 s watchdog per loads call (5 s per reader step, 8 s per tool run).", "3 C07"),
+    'C08': ("TLA+ three-valued strict reference decoder (Reading: must-accept / must-reject / don't-care with exact "
+            "framing) evaluated by TLC on every recorded loads call; decoder step machine model-checked (MC_Framing)",
+            "TLC exhaustively checks pointer = sum of spans, contiguity, non-negative lengths, own-bytes and agreement "
+            "with the declarative reading on every data string up to a bound. The mutation corpus of C07 plus targeted "
+            "prefix attacks (negative / signed / spaced / underscored prefixes swallowed by a following fixed element) "
+            "is decoded by the real code and TLC judges accept/reject and the dictionary key for key.",
+            TB + "Lenient numerals (Python int() extras) are a don't-care for acceptance as the property states; "
+            "measured semantics in DESIGN appendix A.", "3 C08"),
 }
 
 PENDING = "check not built yet in this round (specification under construction; see DESIGN.md section 3)"
